@@ -62,6 +62,8 @@ int vrt_cv_wait(void *cv, void *m, int64_t deadline_ns) {
 }
 void vrt_cv_notify(void *, int) {}
 int64_t vrt_now_ns(void) { return g_now; }
+// the single thread is busy for a while: virtual time passes although nobody sleeps (sequential harnesses only)
+void seqx_busy_ns(int64_t ns) { g_now += ns; }
 int vrt_early_clock_advances(void) { return 0; }
 int vrt_thread_create(void (*)(void *), void *) {
     failf("harness/thread-in-seq-mode", "std::thread created in a sequential harness");
